@@ -52,6 +52,11 @@ func repRule(k int) tcstub.Rule {
 	return tcstub.Rule{Kind: "BranchReport", Count: k, Action: "transport"}
 }
 
+// repFailRule: the coordinator ANSWERS the report with ResultCode Failed k times, then accepts it
+func repFailRule(k int) tcstub.Rule {
+	return tcstub.Rule{Kind: "BranchReport", Count: k, Action: "fail"}
+}
+
 func c02AutoFaults() []c02Fault {
 	fs := []c02Fault{{name: "none"},
 		{name: "begin", db: []fakedb.Fault{fBegin}}, {name: "q", db: []fakedb.Fault{fQ}}, {name: "s", db: []fakedb.Fault{fS}},
@@ -84,6 +89,13 @@ func c02AutoFaults() []c02Fault {
 		fs = append(fs, c02Fault{name: "commit+report" + strconv.Itoa(k), db: []fakedb.Fault{fCommit}, tc: []tcstub.Rule{repRule(k)}})
 	}
 	fs = append(fs, c02Fault{name: "uexec+report3", db: []fakedb.Fault{fUExec}, tc: []tcstub.Rule{repRule(3)}})
+	// report refused at message level (ResultCode Failed), then accepted on the retry
+	fs = append(fs, c02Fault{name: "reportfail1", tc: []tcstub.Rule{repFailRule(1)}},
+		c02Fault{name: "commit+reportfail1", db: []fakedb.Fault{fCommit}, tc: []tcstub.Rule{repFailRule(1)}},
+		c02Fault{name: "commit+reportfail3", db: []fakedb.Fault{fCommit}, tc: []tcstub.Rule{repFailRule(3)}},
+		c02Fault{name: "uexec+reportfail2", db: []fakedb.Fault{fUExec}, tc: []tcstub.Rule{repFailRule(2)}},
+		c02Fault{name: "commit+reportfail5", db: []fakedb.Fault{fCommit}, tc: []tcstub.Rule{repFailRule(5)}},
+		c02Fault{name: "commit+reportfail1+transport1", db: []fakedb.Fault{fCommit}, tc: []tcstub.Rule{repFailRule(1), repRule(1)}})
 	return fs
 }
 
@@ -98,6 +110,8 @@ func c02CommitFaults() []c02Fault {
 type c02Stmt struct {
 	kind string
 	rows bool
+	// viaQuery: the DML text is sent through Query (db.QueryContext), which database/sql allows
+	viaQuery bool
 }
 
 const c02DDL = "CREATE TABLE t_kv (k INT NOT NULL, Val INT NOT NULL DEFAULT 0, PRIMARY KEY (k))"
@@ -119,6 +133,9 @@ func c02Step(j int, s c02Stmt, conn string) (atrun.Step, StmtMeta) {
 		st = atrun.Step{Op: "exec", Conn: conn, Cancelable: conn == "", SQL: "DELETE FROM t_kv WHERE k = ?", Args: []atrun.Arg{atrun.I(int64(j + 1))}}
 	default:
 		st = atrun.Step{Op: "exec", Conn: conn, Cancelable: conn == "", SQL: "INSERT INTO t_kv (k, Val) VALUES (?, ?)", Args: []atrun.Arg{atrun.I(int64(100 + j)), atrun.I(int64(1000 + j))}}
+	}
+	if s.viaQuery {
+		st.Op = "query"
 	}
 	m.Args = st.Args
 	return st, m
@@ -190,14 +207,30 @@ func c02Case(idx int, mode string, commit bool, stmts []c02Stmt, f c02Fault, str
 func c02Cases(r *hutil.Rng, n int, thorough bool) []Case {
 	var out []Case
 	idx := 0
-	autoShapes := [][]c02Stmt{{{"update", true}}, {{"update", false}}, {{"delete", true}}, {{"insert", true}}}
+	autoShapes := [][]c02Stmt{{{kind: "update", rows: true}}, {{kind: "update", rows: false}}, {{kind: "delete", rows: true}}, {{kind: "insert", rows: true}}}
 	for _, sh := range autoShapes {
 		for _, f := range c02AutoFaults() {
 			out = append(out, c02Case(idx, "auto", true, sh, f, "clean"))
 			idx++
 		}
 	}
-	expShapes := [][]c02Stmt{{{"update", true}}, {{"update", true}, {"insert", true}}, {{"delete", true}, {"update", false}}, {}, {{"update", false}}}
+	// DML sent through the QUERY path (db.Query with an UPDATE/DELETE/INSERT text)
+	qFaults := []c02Fault{{name: "none"}, {name: "s-query", db: []fakedb.Fault{dbF("QUERY", "^(UPDATE|DELETE|INSERT)")}}, {name: "q2", db: []fakedb.Fault{fQ2}},
+		{name: "uexec", db: []fakedb.Fault{fUExec}}, {name: "commit", db: []fakedb.Fault{fCommit}}, {name: "reg-fail", tc: []tcstub.Rule{regRule("fail")}},
+		{name: "commit+reportfail1", db: []fakedb.Fault{fCommit}, tc: []tcstub.Rule{repFailRule(1)}}}
+	for _, sh := range [][]c02Stmt{{{kind: "update", rows: true, viaQuery: true}}, {{kind: "delete", rows: true, viaQuery: true}}, {{kind: "insert", rows: true, viaQuery: true}}, {{kind: "update", rows: false, viaQuery: true}}} {
+		for _, f := range qFaults {
+			out = append(out, c02Case(idx, "auto", true, sh, f, "clean"))
+			idx++
+		}
+	}
+	out = append(out, c02Case(idx, "explicit", true, []c02Stmt{{kind: "update", rows: true, viaQuery: true}, {kind: "insert", rows: true, viaQuery: false}}, c02Fault{name: "none"}, "clean"))
+	idx++
+	out = append(out, c02Case(idx, "explicit", true, []c02Stmt{{kind: "delete", rows: true, viaQuery: true}}, c02Fault{name: "uexec", db: []fakedb.Fault{fUExec}}, "clean"))
+	idx++
+	out = append(out, c02Pinned(idx, []c02Stmt{{kind: "update", rows: true, viaQuery: true}, {kind: "insert", rows: true, viaQuery: true}}, c02Fault{name: "none"}))
+	idx++
+	expShapes := [][]c02Stmt{{{kind: "update", rows: true}}, {{kind: "update", rows: true}, {kind: "insert", rows: true}}, {{kind: "delete", rows: true}, {kind: "update", rows: false}}, {}, {{kind: "update", rows: false}}}
 	for _, sh := range expShapes {
 		for _, f := range c02CommitFaults() {
 			out = append(out, c02Case(idx, "explicit", true, sh, f, "clean"))
@@ -218,7 +251,7 @@ func c02Cases(r *hutil.Rng, n int, thorough bool) []Case {
 		{name: "reg-fail", tc: []tcstub.Rule{regRule("fail")}}, {name: "reg-conflict", tc: []tcstub.Rule{regRule("lock-conflict")}},
 		{name: "reg-fail+rollback1", db: []fakedb.Fault{fRollb}, tc: []tcstub.Rule{regRule("fail")}},
 		{name: "commit+report2", db: []fakedb.Fault{fCommit}, tc: []tcstub.Rule{repRule(2)}}}
-	pinShapes := [][]c02Stmt{{{"update", true}, {"update", true}}, {{"insert", true}, {"delete", true}, {"update", true}}, {{"update", false}, {"insert", true}}, {{"delete", true}, {"update", true}}}
+	pinShapes := [][]c02Stmt{{{kind: "update", rows: true}, {kind: "update", rows: true}}, {{kind: "insert", rows: true}, {kind: "delete", rows: true}, {kind: "update", rows: true}}, {{kind: "update", rows: false}, {kind: "insert", rows: true}}, {{kind: "delete", rows: true}, {kind: "update", rows: true}}}
 	for si, sh := range pinShapes {
 		for fi, f := range pinFaults {
 			if thorough || (si+fi)%2 == 0 || f.name == "commit+rollback1" {
@@ -232,7 +265,7 @@ func c02Cases(r *hutil.Rng, n int, thorough bool) []Case {
 	for i := 0; i < n; i++ {
 		var sh []c02Stmt
 		for j, k := 0, 1+r.Intn(4); j < k; j++ {
-			sh = append(sh, c02Stmt{kinds[r.Intn(3)], r.Chance(3, 4)})
+			sh = append(sh, c02Stmt{kind: kinds[r.Intn(3)], rows: r.Chance(3, 4), viaQuery: r.Chance(1, 5)})
 			if sh[j].kind != "update" {
 				sh[j].rows = true
 			}
@@ -248,7 +281,7 @@ func c02Cases(r *hutil.Rng, n int, thorough bool) []Case {
 	}
 	// malformed stream: a statement fault inside an explicit transaction that the user commits anyway
 	for _, f := range []c02Fault{{name: "s", db: []fakedb.Fault{fS}}, {name: "q2", db: []fakedb.Fault{fQ2}}, {name: "q", db: []fakedb.Fault{fQ}}} {
-		out = append(out, c02Case(idx, "explicit", true, []c02Stmt{{"update", true}, {"insert", true}}, f, "malformed"))
+		out = append(out, c02Case(idx, "explicit", true, []c02Stmt{{kind: "update", rows: true}, {kind: "insert", rows: true}}, f, "malformed"))
 		idx++
 	}
 	return out
